@@ -175,9 +175,10 @@ class ElementProxy(Sequence):
                     element = self.traversal_list[0]
                 except IndexError:
                     element = self.element_list.create_element(self.element_name, traversal_parent=True)
-            if name == 'value':
-                element.set_parent_to_traversal()
             setattr(element, name, value)
+            if name == 'value':
+                # the element becomes a real child only once the value has been accepted
+                element.set_parent_to_traversal()
 
     def __setitem__(self, index, value):
         self.element_list.set(self.element_name, value, index)
@@ -841,6 +842,8 @@ class Element(object):
         """
         if self.parent is not None:
             return self.parent.encoding_chars
+        if self.traversal_parent is not None:
+            return self.traversal_parent.encoding_chars
         return get_default_encoding_chars(self.version)
 
     def _find_structure(self, reference=None):
